@@ -19,6 +19,8 @@ import Knee.Model.Matching
 import Knee.Model.Ranking
 import Knee.Model.PipelineFull
 import Knee.Model.PipelineCfgM
+import Knee.Model.Neighbourhood
+import Knee.Model.Knees2
 /-
 Correspondence driver.  `lake env lean --run Driver.lean` (or the compiled `driver` exe).
 Harness → driver : `CALL <fn> <arg> <arg> …`
@@ -118,8 +120,99 @@ def zLoopHasTie (w h : Rat) (zthr : Nat → Rat) (minz : Rat) : Nat → Nat → 
     if r.1.isEmpty || (decide (zthr k ≤ minz) && r.2.2 == 0) then tie
     else tie || zLoopHasTie w h zthr minz f (k + 1) r.1 r.2.1
 
+
+/-- extended rationals on the wire: `nan`, `inf`, `-inf` or a rational -/
+def parseExt? (s : String) : Option ExtQ :=
+  if s == "nan" then some .nan else if s == "inf" then some .pinf else if s == "-inf" then some .ninf
+  else (parseRat? s).map .fin
+
+def showExt : ExtQ → String
+  | .nan => "nan" | .pinf => "inf" | .ninf => "-inf" | .fin q => showRat q
+
+/-- rows separated by `;` (one oracle table per call) -/
+def parseRows? {α} (p : String → Option α) (s : String) : Option (List (List α)) :=
+  if s = "-" then some [] else (s.splitOn ";").mapM (parseList? p)
+
+def showNbOut : NbOut ExtQ → String
+  | .found i v tr => s!"found {i} {showExt v} {showNats tr}"
+  | .unbound tr => s!"unbound {showNats tr}"
+  | .negIndex => "negindex"
+
+def showSrErr : SrErr → String
+  | .emptyKnees => "error empty 0"
+  | .negIndex p => s!"error negindex {p}"
+  | .unbound p => s!"error unbound {p}"
+
+/-- glue for `knees2`: a square table over the index list `idx`, row-major (`tbl[pos a * m + pos b]`) -/
+def lookupSquare (idx : Array Nat) (tbl : Array Rat) (a b : Nat) : Rat :=
+  match idx.idxOf? a, idx.idxOf? b with
+  | some i, some j => tbl.getD (i * idx.size + j) 0
+  | _, _ => 0
+
+def showKnees2 (o : Option Knees2Out) : String :=
+  match o with
+  | none => "none"
+  | some o => showNats o.result ++ " " ++ toString o.rounds ++ " " ++ showNats o.outliers ++ " " ++ showNats o.worst ++ " " ++
+      showNats o.corner ++ " " ++ ";".intercalate (o.trace.map showNats)
+
+def iouTable (ks : List Nat) (ious : List Rat) : Nat → Rat :=
+  let tbl := ks.zip ious
+  fun k => ((tbl.find? (fun p => p.1 == k)).map (·.2)).getD 0
+
 def dispatch (out inp : IO.FS.Stream) (fn : String) (args : List String) : M String := do
   match fn, args with
+  | "nb_binary", [t, a, b, r2s] =>
+    let t ← orErr (parseExt? t) "t"
+    let a ← orErr (parseNat? a) "a"
+    let b ← orErr (parseNat? b) "b"
+    let r2s ← orErr (parseList? parseExt? r2s) "r2"
+    match nbBinary (fun i => r2s[i]?.getD .nan) t a b with
+    | some s => pure s!"{s.i} {s.right} {showNats s.trace}"
+    | none => pure "none"
+  | "nb_fast", [t, a, b, r2s] =>
+    let t ← orErr (parseExt? t) "t"
+    let a ← orErr (parseNat? a) "a"
+    let b ← orErr (parseNat? b) "b"
+    let r2s ← orErr (parseList? parseExt? r2s) "r2"
+    match nbFast (fun i => r2s[i]?.getD .nan) t a b with
+    | some f => pure s!"{f.i} {showExt f.r2} {showNats f.binTrace} {showNats f.trace}"
+    | none => pure "none"
+  | "nb_linear", [t, a, b, r2s] =>
+    let t ← orErr (parseExt? t) "t"
+    let a ← orErr (parseNat? a) "a"
+    let b ← orErr (parseNat? b) "b"
+    let r2s ← orErr (parseList? parseExt? r2s) "r2"
+    pure (showNbOut (nbLinear (fun i => r2s[i]?.getD .nan) (.fin 1) t a b))
+  | "slope_ranking", [t, knees, r2rows, slrows] =>
+    -- one oracle row per call (row p: the values for the slices i..knees[p], i = 0..knees[p]); rows are looked up by the right end
+    let t ← orErr (parseExt? t) "t"
+    let knees ← orErr (parseList? parseNat? knees) "knees"
+    let r2rows ← orErr (parseRows? parseExt? r2rows) "r2 rows"
+    let slrows ← orErr (parseRows? parseRat? slrows) "slope rows"
+    let rt := knees.zip r2rows
+    let st := knees.zip slrows
+    let r2 := fun (a i : Nat) => (((rt.find? fun e => e.1 == a).map (·.2)).getD [])[i]?.getD .nan
+    let sl := fun (a i : Nat) => (((st.find? fun e => e.1 == a).map (·.2)).getD [])[i]?.getD 0
+    let calls := slopeCalls r2 (.fin 1) t knees
+    let idx := match nbIdxSeq 0 calls with | .ok l => showNats l | .error _ => "-"
+    match slopeRanking r2 (.fin 1) t sl knees with
+    | .ok l => pure s!"ok {showList showRat l} {idx} {";".intercalate (calls.map fun c => match c with | .found _ _ tr => showNats tr | _ => "-")}"
+    | .error e => pure (showSrErr e)
+  | "rank_ok", [vals, ranks] =>
+    let vals ← orErr (parseList? parseRat? vals) "vals"
+    let ranks ← orErr (parseList? parseNat? ranks) "ranks"
+    pure (if isRankOfB vals ranks then "1" else "0")
+  | "norm_ranks", [ranks] =>
+    let ranks ← orErr (parseList? parseNat? ranks) "ranks"
+    pure (showList showRat (normRanks ranks))
+  | "accuracy_knee", [t, knees, r2rows] =>
+    let t ← orErr (parseExt? t) "t"
+    let knees ← orErr (parseList? parseNat? knees) "knees"
+    let r2rows ← orErr (parseRows? parseExt? r2rows) "r2 rows"
+    let rt := knees.zip r2rows
+    let r2 := fun (a i : Nat) => (((rt.find? fun e => e.1 == a).map (·.2)).getD [])[i]?.getD .nan
+    let calls := accuracyKneeCalls r2 t knees
+    pure (showList (fun c => match c with | some (f : NbFast ExtQ) => toString f.i | none => "none") calls)
   | "computeRemoved", [red] =>
     let r ← orErr (parseList? parseNat? red) "reduced"
     pure (showPairs (computeRemoved r))
@@ -494,6 +587,58 @@ def dispatch (out inp : IO.FS.Stream) (fn : String) (args : List String) : M Str
     match r with
     | none => pure "none"
     | some S => pure (showNats S.reduced ++ " " ++ showNats S.knees ++ " " ++ showNats S.worst ++ " " ++ showNats S.corner ++ " " ++ showNats S.cluster ++ " " ++ showNats S.out)
+  | "knees2", [v, z, hs, cidx, ious, t, xstep, ystep, tidx, dxm, dym] =>
+    -- zmethod.knees2 with float-difference tables: dxm/dym[pos a * m + pos b] = fl(x[a]-x[b]) / fl(y[a]-y[b]) over the index list tidx
+    let v ← orErr (parseList? parseRat? v) "v"
+    let z ← orErr (parseRat? z) "z"
+    let hs ← orErr (parseList? parseRat? hs) "heights"
+    let cidx ← orErr (parseList? parseNat? cidx) "cidx"
+    let ious ← orErr (parseList? parseRat? ious) "ious"
+    let t ← orErr (parseRat? t) "t"
+    let xstep ← orErr (parseRat? xstep) "xstep"
+    let ystep ← orErr (parseRat? ystep) "ystep"
+    let tidx ← orErr (parseList? parseNat? tidx) "tidx"
+    let dxm ← orErr (parseList? parseRat? dxm) "dxm"
+    let dym ← orErr (parseList? parseRat? dym) "dym"
+    if dxm.length ≠ tidx.length * tidx.length || dym.length ≠ tidx.length * tidx.length then throw "table size" else
+    let ia := tidx.toArray
+    pure (showKnees2 (knees2F v z hs.length (fun k => hs[k]?.getD 0) (iouTable cidx ious) t
+      (lookupSquare ia dxm.toArray) (lookupSquare ia dym.toArray) xstep ystep))
+  | "knees2Q", [v, z, xs, ys, cidx, ious, t, xstep, ystep] =>
+    -- the same over exact coordinates
+    let v ← orErr (parseList? parseRat? v) "v"
+    let z ← orErr (parseRat? z) "z"
+    let xs ← orErr (parseList? parseRat? xs) "xs"
+    let ys ← orErr (parseList? parseRat? ys) "ys"
+    let cidx ← orErr (parseList? parseNat? cidx) "cidx"
+    let ious ← orErr (parseList? parseRat? ious) "ious"
+    let t ← orErr (parseRat? t) "t"
+    let xstep ← orErr (parseRat? xstep) "xstep"
+    let ystep ← orErr (parseRat? ystep) "ystep"
+    pure (showKnees2 (knees2Q v z xs ys (iouTable cidx ious) t xstep ystep))
+  | "knees2_round", [cands, nearm, scores] =>
+    -- one refinement round for an ARBITRARY boolean box table over the candidate positions (nearm[pos j * m + pos i] = near cands[j] cands[i], 0/1)
+    -- and an arbitrary score table `n1:s,s,s;n2:…` (neighbourhood list -> scores); a missing neighbourhood scores [].
+    let cands ← orErr (parseList? parseNat? cands) "cands"
+    let nearm ← orErr (parseList? parseNat? nearm) "near"
+    let ents ← (if scores == "-" then pure [] else orErr ((scores.splitOn ";").mapM fun e => match e.splitOn ":" with
+      | [n, sc] => do let n ← parseList? parseNat? n; let sc ← parseList? parseRat? sc; pure (n, sc)
+      | _ => none) "scores" : M (List (List Nat × List Rat)))
+    let ca := cands.toArray
+    let na := nearm.toArray
+    let near := fun (j i : Nat) => match ca.idxOf? j, ca.idxOf? i with
+      | some a, some b => na.getD (a * ca.size + b) 0 == 1
+      | _, _ => false
+    let score := fun (n : List Nat) => ((ents.find? fun e => e.1 == n).map (·.2)).getD []
+    let r := refineRound near score cands
+    pure (showNats r ++ " " ++ ";".intercalate (cands.map fun i => showNats (neighbourhood near cands i)))
+  | "map_index", [a, sigma, b] =>
+    let a ← orErr (parseList? parseRat? a) "a"
+    let sigma ← orErr (parseList? parseNat? sigma) "sigma"
+    let b ← orErr (parseList? parseRat? b) "b"
+    match mapIndex a sigma b with
+    | some r => pure (showNats r ++ " " ++ showNats (b.map (searchLeft a sigma)))
+    | none => pure ("none " ++ showNats (b.map (searchLeft a sigma)))
   | _, _ => throw s!"unknown call {fn}/{args.length}"
 
 partial def loop (out inp : IO.FS.Stream) : IO Unit := do
